@@ -1,7 +1,255 @@
 import LunarVerif.Proofs.C03
+/-!
+# C03 — A flow runs for a transaction exactly when its own filter accepts it
+
+Property theorems only (helpers: `Proofs/UrlTree.lean`, `Proofs/C03Trav.lean`, `Proofs/C03Look.lean`,
+`Proofs/C03Build.lean`, `Proofs/C03.lean`).  Model: `Model/UrlTree.lean` (extensional trie, shared),
+`Model/C03.lean` (`lookupFlow` loop verbatim, `AddFlow`, node requirements, per-flow qualification,
+`FilterResult.Extend`).  Spec: `Spec/UrlMatch.lean`, `Spec/C03.lean` (observable terms only).
+
+`getFlow_char` and `N` hold for EVERY tree and transaction.  The `_partial` theorems quantify over every list
+of flows (= every load order), every transaction; their only extra hypothesis is `Benign cfg t` — the
+conjunction of the decidable classifiers of `Spec/C03.lean` (findings F03a–i) — and each class has a
+`_violation_witness` showing that its conjunct cannot be dropped on the unchanged code.
+(`t.parts ≠ []`: `splitURL` never returns the empty list.)
+-/
 namespace LunarVerif.C03
 open LunarVerif.UrlTree LunarVerif.UrlMatch
 
-theorem placeholder : True := trivial
+/-! ### closed form (unconditional) -/
+
+/-- `getFlow_char`.  For every filter tree (hence every set of flows and every load order) and every
+    transaction: the names reported per group are those of `selected` — for each node returned by the
+    traversal, in order, the node's flows that pass the node's qualification — and `found` tells whether
+    any group is non-empty. -/
+theorem getFlow_char (ft : FTree) (t : Txn) :
+    (∀ k, (observe ft t).names k = (selected ft t k).map (·.name)) ∧
+    (observe ft t).found = [Kind.user, Kind.sysStart, Kind.sysEnd].any (fun k => !(selected ft t k).isEmpty) :=
+  observe_char ft t
+
+/-- (N) `found` is false exactly when nothing is selected, and then nothing at all is executed. -/
+theorem N (ft : FTree) (t : Txn) :
+    nOk (observe ft t) = true ∧ ((observe ft t).found = false → executed ft t = []) :=
+  ⟨nOk_observe ft t, executed_nil⟩
+
+/-! ### witnesses: concrete flows (parts written as `splitURL` produces them) -/
+
+def hostACom : List Part := [⟨true, .lit "a"⟩, ⟨true, .lit "com"⟩]
+def seg (s : String) : Part := ⟨false, .lit s⟩
+def star : Part := ⟨false, .wild⟩
+
+/-- a user flow without constraints -/
+def plain (name url : String) (parts : List Part) : Flow :=
+  { name := name, kind := .user, url := url, parts := parts, canon := true,
+    methods := [], headers := [], query := [], statuses := [] }
+
+def fX : Flow := plain "f0" "a.com/x" (hostACom ++ [seg "x"])
+def fXget : Flow := { plain "f1" "a.com/x" (hostACom ++ [seg "x"]) with methods := ["GET"] }
+def fXstar : Flow := plain "f2" "a.com/x/*" (hostACom ++ [seg "x", star])
+def fStar : Flow := plain "f3" "a.com/*" (hostACom ++ [star])
+def fUsers : Flow := plain "f4" "a.com/users/{id}/posts" (hostACom ++ [seg "users", ⟨false, .par "id"⟩, seg "posts"])
+def fXslash (name : String) : Flow := { plain name "a.com/x/" (hostACom ++ [seg "x"]) with canon := false }
+def fXsys : Flow := { plain "q0" "a.com/x" (hostACom ++ [seg "x"]) with kind := .sysStart }
+def fXq : Flow := { plain "f5" "a.com/x" (hostACom ++ [seg "x"]) with query := [("k", none)] }
+
+def req (m : String) (parts : List Part) (q : List (String × String) := []) : Txn :=
+  ⟨false, m, parts, [], q, 0⟩
+
+def urlX : List Part := hostACom ++ [seg "x"]
+def urlXY : List Part := hostACom ++ [seg "x", seg "y"]
+def urlXYZ : List Part := hostACom ++ [seg "x", seg "y", seg "z"]
+
+/-- What the model answers for `t` after loading `cfg` in that order (`none`: a load error). -/
+def answer (cfg : List Flow) (t : Txn) : Option Answer :=
+  match build cfg with
+  | .ok ft => some (observe ft t)
+  | .error _ => none
+
+/-- The three verdicts of the Spec on the model's answer. -/
+def verdict (cfg : List Flow) (t : Txn) : Option (Bool × Bool × Bool) :=
+  (answer cfg t).map fun a => (selOk cfg t a, compOk cfg t a, nOk a)
+
+/-! ### the characterisation and (S), (C) outside the excluded classes -/
+
+/-- `getFlow_char` under `Benign`: a loaded configuration selects exactly the flows whose own filter
+    accepts the transaction and that no literal sibling shadows. -/
+theorem selected_char_partial (cfg : List Flow) (ft : FTree) (t : Txn) (hbuild : build cfg = .ok ft)
+    (hB : Benign cfg t = true) (ht : t.parts ≠ []) (k : Kind) (f : Flow) :
+    f ∈ selected ft t k ↔ f ∈ cfg ∧ f.kind = k ∧ applies f t = true ∧ shadowed cfg f t = false :=
+  selected_iff (build_inv (benign_cfg hB) hbuild) hB ht k f
+
+/-- (S) selected ⇒ applies. -/
+theorem S_partial (cfg : List Flow) (ft : FTree) (t : Txn) (hbuild : build cfg = .ok ft)
+    (hB : Benign cfg t = true) (ht : t.parts ≠ []) : selOk cfg t (observe ft t) = true := by
+  apply selOk_of
+  intro k n hn
+  obtain ⟨f, hf, hname⟩ := mem_names_observe.mp hn
+  obtain ⟨hc, hk, ha, _⟩ := (selected_char_partial cfg ft t hbuild hB ht k f).mp hf
+  exact ⟨f, hc, hname, hk, ha⟩
+
+/-- (C) applies ∧ ¬shadowed ⇒ selected. -/
+theorem C_partial (cfg : List Flow) (ft : FTree) (t : Txn) (hbuild : build cfg = .ok ft)
+    (hB : Benign cfg t = true) (ht : t.parts ≠ []) : compOk cfg t (observe ft t) = true := by
+  apply compOk_of
+  intro f hf ha hs
+  exact mem_names_observe.mpr ⟨f, (selected_char_partial cfg ft t hbuild hB ht f.kind f).mpr ⟨hf, rfl, ha, hs⟩, rfl⟩
+
+/-- CONNECTION: the judge's per-transaction predicate holds of every model answer on `Benign` inputs. -/
+theorem c03_holds_partial (cfg : List Flow) (ft : FTree) (t : Txn) (hbuild : build cfg = .ok ft)
+    (hB : Benign cfg t = true) (ht : t.parts ≠ []) : txnOk cfg t (observe ft t) = true := by
+  unfold txnOk
+  rw [S_partial cfg ft t hbuild hB ht, C_partial cfg ft t hbuild hB ht, (N ft t).1]
+  rfl
+
+/-- non-vacuity: overlapping patterns (literal, `/*`, parameter), a GET-only flow, a matching request that
+    selects two flows from two different nodes. -/
+example :
+    Benign [fStar, fUsers, fXget] (req "GET" urlX) = true ∧
+    answer [fStar, fUsers, fXget] (req "GET" urlX) = some ⟨true, ["f3", "f1"], [], []⟩ ∧
+    answer [fStar, fUsers, fXget] (req "POST" urlX) = some ⟨true, ["f3"], [], []⟩ ∧
+    verdict [fStar, fUsers, fXget] (req "GET" urlX) = some (true, true, true) := by decide
+
+/-- The judge finds nothing to report in a round of model answers on `Benign` inputs. -/
+theorem judge_round_ok (cfg : List Flow) (ft : FTree) (reqs : List Req) (hbuild : build cfg = .ok ft)
+    (h : ∀ q ∈ reqs, Benign cfg q.txn = true ∧ q.txn.parts ≠ [] ∧ q.ans = observe ft q.txn) :
+    reqVerdicts ⟨cfg, reqs⟩ = [] := by
+  unfold reqVerdicts
+  rw [List.filterMap_eq_nil_iff]
+  intro q hq
+  obtain ⟨hB, ht, ha⟩ := h q hq
+  simp only
+  rw [ha, S_partial cfg ft q.txn hbuild hB ht, C_partial cfg ft q.txn hbuild hB ht, (N ft q.txn).1]
+  simp
+
+/-! ### (O) order independence -/
+
+/-- (O) Two load orders of the same flows, both outside the excluded classes (F03d and F03g are
+    order-sensitive), select the same set for every transaction. -/
+theorem O_partial (cfg cfg' : List Flow) (ft ft' : FTree) (t : Txn) (hp : cfg.Perm cfg')
+    (hbuild : build cfg = .ok ft) (hbuild' : build cfg' = .ok ft')
+    (hB : Benign cfg t = true) (hB' : Benign cfg' t = true) (ht : t.parts ≠ []) :
+    sameSel (observe ft t) (observe ft' t) = true := by
+  apply sameSel_of
+  intro k n
+  rw [mem_names_observe, mem_names_observe]
+  constructor
+  · rintro ⟨f, hf, hn⟩
+    obtain ⟨hc, hk, ha, hs⟩ := (selected_char_partial cfg ft t hbuild hB ht k f).mp hf
+    exact ⟨f, (selected_char_partial cfg' ft' t hbuild' hB' ht k f).mpr
+      ⟨hp.mem_iff.mp hc, hk, ha, by rw [← shadowed_perm hp]; exact hs⟩, hn⟩
+  · rintro ⟨f, hf, hn⟩
+    obtain ⟨hc, hk, ha, hs⟩ := (selected_char_partial cfg' ft' t hbuild' hB' ht k f).mp hf
+    exact ⟨f, (selected_char_partial cfg ft t hbuild hB ht k f).mpr
+      ⟨hp.mem_iff.mpr hc, hk, ha, by rw [shadowed_perm hp]; exact hs⟩, hn⟩
+
+/-- non-vacuity of `O_partial`: three overlapping patterns, two orders, both benign, same set in a
+    different order. -/
+example :
+    [fStar, fUsers, fXget].Perm [fXget, fStar, fUsers] ∧
+    Benign [fStar, fUsers, fXget] (req "GET" urlX) = true ∧ Benign [fXget, fStar, fUsers] (req "GET" urlX) = true ∧
+    answer [fStar, fUsers, fXget] (req "GET" urlX) = some ⟨true, ["f3", "f1"], [], []⟩ ∧
+    answer [fXget, fStar, fUsers] (req "GET" urlX) = some ⟨true, ["f3", "f1"], [], []⟩ := by
+  refine ⟨?_, by decide, by decide, by decide, by decide⟩
+  exact (List.perm_append_comm (l₁ := [fStar, fUsers]) (l₂ := [fXget]))
+
+/-- The judge's order check finds nothing to report between two rounds of model answers (two load orders of
+    the same flows) on `Benign` inputs. -/
+theorem judge_order_ok (cfg cfg' : List Flow) (ft ft' : FTree) (reqs reqs' : List Req) (hp : cfg.Perm cfg')
+    (hbuild : build cfg = .ok ft) (hbuild' : build cfg' = .ok ft')
+    (h : ∀ q ∈ reqs, Benign cfg q.txn = true ∧ q.txn.parts ≠ [] ∧ q.ans = observe ft q.txn)
+    (h' : ∀ q ∈ reqs', Benign cfg' q.txn = true ∧ q.txn.parts ≠ [] ∧ q.ans = observe ft' q.txn)
+    (hline : ∀ q ∈ reqs, ∀ q' ∈ reqs', q.line = q'.line → q.txn = q'.txn) :
+    roundsAgree ⟨cfg, reqs⟩ ⟨cfg', reqs'⟩ = [] := by
+  unfold roundsAgree
+  rw [List.filterMap_eq_nil_iff]
+  intro q2 hq2
+  simp only
+  cases hf : reqs.find? (fun q1 => q1.line == q2.line) with
+  | none => rfl
+  | some q1 =>
+    simp only
+    have hq1 : q1 ∈ reqs := List.mem_of_find?_eq_some hf
+    have hl : q1.line = q2.line := by simpa using List.find?_some hf
+    obtain ⟨hB, ht, ha⟩ := h q1 hq1
+    obtain ⟨hB', _, ha'⟩ := h' q2 hq2
+    have htx := hline q1 hq1 q2 hq2 hl
+    rw [ha, ha', ← htx, O_partial cfg cfg' ft ft' q1.txn hp hbuild hbuild' hB (by rw [htx]; exact hB') ht]
+    rfl
+
+/-- The tree the driver answers from — flows added one by one, refused ones skipped — is `build` of the
+    flows it accepted (the judge's observable configuration). -/
+theorem driver_tree_is_build (fs : List Flow) :
+    build (((fs.zip (loadSkip .empty fs).2).filter (fun p => p.2.isNone)).map (·.1)) = .ok (loadSkip .empty fs).1 :=
+  loadSkip_build fs .empty
+
+/-! ### violation witnesses: no conjunct of `Benign` can be dropped -/
+
+/-- F03a.  `[f0 (no constraint), f1 (GET only)]` on `a.com/x`: `POST a.com/x` runs f1 (S fails);
+    in the other order `HEAD a.com/x` runs nothing although f0 applies (C fails); the selected set for
+    `POST` depends on the order (O fails). -/
+theorem mixed_shapes_violation_witness :
+    mixedShapes [fX, fXget] = true ∧
+    answer [fX, fXget] (req "POST" urlX) = some ⟨true, ["f0", "f1"], [], []⟩ ∧
+    verdict [fX, fXget] (req "POST" urlX) = some (false, true, true) ∧
+    answer [fXget, fX] (req "HEAD" urlX) = some ⟨false, [], [], []⟩ ∧
+    verdict [fXget, fX] (req "HEAD" urlX) = some (true, false, true) ∧
+    answer [fXget, fX] (req "POST" urlX) = some ⟨true, ["f0"], [], []⟩ ∧
+    [fX, fXget].Perm [fXget, fX] := by
+  refine ⟨by decide, by decide, by decide, by decide, by decide, by decide, List.Perm.swap _ _ _⟩
+
+/-- F03b.  Only `a.com/x` loaded: it is selected for `a.com/x/y`. -/
+theorem one_extra_violation_witness :
+    oneExtra [fX] urlXY = true ∧ «matches» fX.parts urlXY = false ∧
+    answer [fX] (req "GET" urlXY) = some ⟨true, ["f0"], [], []⟩ ∧
+    verdict [fX] (req "GET" urlXY) = some (false, true, true) := by decide
+
+/-- F03c.  `a.com/x` and `a.com/x/*` loaded: `a.com/x` selects neither. -/
+theorem zero_segment_violation_witness :
+    zeroSegWild [fX, fXstar] urlX = true ∧
+    answer [fX, fXstar] (req "GET" urlX) = some ⟨false, [], [], []⟩ ∧
+    verdict [fX, fXstar] (req "GET" urlX) = some (true, false, true) := by decide
+
+/-- F03d.  `a.com/x/*` loaded before `a.com/x`: the literal flow is attached to the wildcard node and runs
+    for `a.com/x/y/z`; the other order behaves as intended. -/
+theorem merge_confused_violation_witness :
+    mergeConfused [fXstar, fX] = true ∧ mergeConfused [fX, fXstar] = false ∧
+    answer [fXstar, fX] (req "GET" urlXYZ) = some ⟨true, ["f2", "f0"], [], []⟩ ∧
+    verdict [fXstar, fX] (req "GET" urlXYZ) = some (false, true, true) ∧
+    answer [fX, fXstar] (req "GET" urlXYZ) = some ⟨true, ["f2"], [], []⟩ := by decide
+
+/-- F03e.  `a.com/*` is selected for the HOST `a.com.evil.org`. -/
+theorem boundary_violation_witness :
+    boundaryMix [fStar] [⟨true, .lit "a"⟩, ⟨true, .lit "com"⟩, ⟨true, .lit "evil"⟩, ⟨true, .lit "org"⟩] = true ∧
+    verdict [fStar] (req "GET" [⟨true, .lit "a"⟩, ⟨true, .lit "com"⟩, ⟨true, .lit "evil"⟩, ⟨true, .lit "org"⟩]) =
+      some (false, true, true) := by decide
+
+/-- F03f.  `a.com/users/{id}/posts` is selected for `a.com/users//posts`. -/
+theorem empty_segment_violation_witness :
+    emptySegment (hostACom ++ [seg "users", seg "", seg "posts"]) = true ∧
+    verdict [fUsers] (req "GET" (hostACom ++ [seg "users", seg "", seg "posts"])) = some (false, true, true) := by
+  decide
+
+/-- F03g.  Two flows on the untrimmed URL `a.com/x/`: the second replaces the node of the first. -/
+theorem non_canonical_violation_witness :
+    nonCanonical [fXslash "f0", fXslash "f1"] = true ∧
+    answer [fXslash "f0", fXslash "f1"] (req "GET" urlX) = some ⟨true, ["f1"], [], []⟩ ∧
+    verdict [fXslash "f0", fXslash "f1"] (req "GET" urlX) = some (true, false, true) := by decide
+
+/-- F03h.  A system flow without method filter is not applied to `HEAD`. -/
+theorem sys_default_methods_violation_witness :
+    sysDefaultMethods [fXsys] (req "HEAD" urlX) = true ∧
+    answer [fXsys] (req "GET" urlX) = some ⟨true, [], ["q0"], []⟩ ∧
+    verdict [fXsys] (req "HEAD" urlX) = some (true, false, true) := by decide
+
+/-- F03i.  A query parameter required without a value does not accept `?k=v`. -/
+theorem valueless_query_violation_witness :
+    valuelessQuery [fXq] (req "GET" urlX [("k", "v")]) = true ∧
+    verdict [fXq] (req "GET" urlX [("k", "v")]) = some (true, false, true) ∧
+    verdict [fXq] (req "GET" urlX [("k", "")]) = some (true, true, true) := by decide
+
+/-- Every witness above is classified by the judge under the finding it illustrates, and a configuration is
+    unclassified exactly when it is `Benign`. -/
+theorem classify_iff_benign (cfg : List Flow) (t : Txn) : classify cfg t = "-" ↔ Benign cfg t = true :=
+  classify_benign cfg t
 
 end LunarVerif.C03
